@@ -280,6 +280,11 @@ def _parse_args(args: list[str] | None = None) -> tuple[Options, set[str], bool]
     sentinel_parser.add_argument(
         "--files-max-size", type=int, dest="files_max_size", default=_SENTINEL
     )
+    # The other short options must be known here too, or a bundle that starts with one of
+    # them (`-pw 60`, `-is`) is skipped as a whole and the tracked flag inside it is missed.
+    sentinel_parser.add_argument("-o", "--output", default=None)
+    sentinel_parser.add_argument("-p", "--plaintext", action="store_true")
+    sentinel_parser.add_argument("-i", "--inplace", action="store_true")
     sentinel_opts, _ = sentinel_parser.parse_known_args(args if args is not None else sys.argv[1:])
 
     explicit_flags: set[str] = set()
